@@ -827,10 +827,13 @@ def exception_to_error_frame(stream_id: int, exception: Exception) -> ErrorFrame
 
 
 def error_frame_to_exception(frame: ErrorFrame) -> Exception:
-    if frame.error_code != ErrorCode.APPLICATION_ERROR:
-        return RSocketProtocolError(frame.error_code, data=frame.data.decode())
+    # Error data should be UTF-8 text, but it is arbitrary bytes on the wire: never fail while reporting an error.
+    message = frame.data.decode('utf-8', errors='replace')
 
-    return RuntimeError(frame.data.decode('utf-8'))
+    if frame.error_code != ErrorCode.APPLICATION_ERROR:
+        return RSocketProtocolError(frame.error_code, data=message)
+
+    return RuntimeError(message)
 
 
 def serialize_with_frame_size_header(frame: Frame) -> bytes:
